@@ -87,16 +87,16 @@ class Obj:
         return z3.Select(arr, bv(idx, 64))
 
     def read(self, idx: Any) -> Any:
-        if 'wa_of' in self.meta:
-            self.meta['log'](self.meta['wa_of'](idx))
+        if 'canon_idx' in self.meta:
+            idx = self.meta['canon_idx'](idx)
         if is_c(idx) and idx in self.conc:
             return self.conc[idx]
-        if self.meta.get('fork_reads') and not is_c(idx):
+        if self.meta.get('fork_reads'):
             # KLEE-style: decide aliasing with earlier stores and the validity class of the cell by forking, so that the value
             # is a plain term (the C code branches on exactly these facts right afterwards)
             E = engine()
             for i, x in reversed(self.stores):
-                if E.branch(bv(i, 64) == bv(idx, 64)):
+                if (i == idx) if (is_c(i) and is_c(idx)) else E.branch(bv(i, 64) == bv(idx, 64)):
                     return x
             return self.meta['fork_base'](bv(idx, 64))
         v = self.initial(idx)
@@ -115,14 +115,16 @@ class Obj:
 
     def read_term(self, idx: Any) -> Any:
         """the value as one if-then-else term (no forking): for obligations over a fresh index"""
-        v = self.initial(idx)
+        v = self.meta['term_base'](bv(idx, 64)) if 'term_base' in self.meta else self.initial(idx)
         for i, x in self.stores:
             v = z3.If(bv(i, 64) == bv(idx, 64), bv(x, 64), bv(v, 64))
         return v
 
     def write(self, idx: Any, v: Any) -> None:
-        if 'wa_of' in self.meta:
-            self.meta['log'](self.meta['wa_of'](idx))
+        if 'canon_idx' in self.meta:
+            idx = self.meta['canon_idx'](idx)
+        if 'on_write' in self.meta:
+            self.meta['on_write'](idx, v)
         self.stores.append((idx, v))
         if is_c(idx):
             self.conc[idx] = v
@@ -155,7 +157,37 @@ class Machine:
         # structured view of pointers formed by indexing an 8-byte-element array with a symbolic index:
         #   term id -> (pointer term (pinned), object id, cell index term)   -- lets loads/stores skip the *8 ... /8 round trip
         self.ptrinfo: Dict[int, Tuple[Any, int, Any]] = {}
-        self.wa_log: List[Any] = []        # word addresses of program-memory cells the code touched (objects tagged 'wa_of')
+        self.wa_log: List[Any] = []        # distinct word-address terms of program-memory cells touched on this path
+        self._canon: Dict[int, Tuple[Any, Any]] = {}
+
+    def canon(self, t: Any) -> Any:
+        """representative of a word-address term: the first logged term that is provably equal on this path (same value; makes
+        the select/validity terms built from it coincide syntactically across code paths)"""
+        if is_c(t):
+            return t
+        hit = self._canon.get(t.get_id())
+        if hit is not None:
+            return hit[1]
+        # the answer must be the same on every re-execution of this decision prefix (a solver timeout must not change the shape
+        # of later terms): remember it per (prefix, term) for the whole exploration
+        E = self.E
+        gkey = (hash(tuple(E.decisions[:E.pos])), E.pos, t.get_id())
+        ghit = E.memo.get(gkey)
+        if ghit is not None and ghit[0].eq(t):
+            res = ghit[1]
+        else:
+            res = t
+            for c in self.wa_log:
+                if is_c(c):
+                    continue
+                if c.eq(t) or E._check(t != c) == 'unsat':
+                    res = c
+                    break
+            E.memo[gkey] = (t, res)
+        self._canon[t.get_id()] = (t, res)
+        if res is t:
+            self.wa_log.append(t)
+        return res
 
     # ------------------------------------------------------------------ objects / pointers
     def alloc(self, size: Any, kind: str, name: str, zero: bool = False, base: Any = None) -> Obj:
